@@ -98,4 +98,17 @@ CLAIMS = {
               "invalidation guarded by a flag variable would be reported (path-insensitive to the flag)."),
         technique="static analysis: call-graph closure of memoised functions x effect analysis (write catalogue) with must-invalidate-after-write path check",
     ),
+    "C06": dict(
+        text=("Decides the structural skeleton of unrolling for all nestings and counts: apply_modifiers_to_self repeats with the block's own "
+              "count on every path where it can exceed 1, resets the count to a fixed 1 on EVERY path, then recurses unconditionally into all "
+              "nodes of the graph as it is after the repeat (a list collected before the repeat is rejected); repeat() iterates exactly "
+              "times - 1 (affine comparison of the range bounds) and extends with a fresh copy of a pre-loop snapshot each time; the copies are "
+              "chained behind the latest of ALL leaves (shared C01.R4/R7); all 26 leaf classes return self untouched; the declarative wrapper "
+              "delegates; fixed / registry strategies report the configured count. Multiplicativity of nested counts and idempotence follow "
+              "by induction from these facts."),
+        note=("Not decided: the numeric clause 'occupies n*T' and 'listing = n-fold concatenation' (layer order of the rebuilt graph is a run-time "
+              "fact; sub-agents observed the unchanged tree deviating from it for some library circuits after flatten, see DESIGN 5b). "
+              "Trusted: range semantics; DynamicRepetitionStrategy callables are user code."),
+        technique="static analysis: ordered-effect (typestate) check on feasible paths, affine comparison of loop bounds, syntactic freshness of the per-iteration copy",
+    ),
 }
